@@ -224,6 +224,18 @@ def run(ck: Check):
                 ck.disagree("gumbel_hard training output on Boolean inputs is not Boolean (not a single gate per neuron)",
                             dict(case, largest=float(y.max()), outside=int((torch.minimum(y.abs(), (y - 1).abs()) > 0.05).sum())),
                             signature={"layer": name, "param": "raw", "mode": "gumbel_hard", "what": "single-gate"})
+    # thresholds at and beyond the ends of (0,1): the soft sample lies strictly inside (0,1), so the hard sample is always 1 for a threshold
+    # <= 0 and always 0 for a threshold >= 1, at every temperature (the rounded sigmoid is exactly 0 / 1 far out in the tails)
+    import torchlogix.functional as Fn2
+    for thr, want in ((0.0, 1.0), (-0.5, 1.0), (1.0, 0.0), (1.5, 0.0)):
+        for tau in (1.0, 0.01, 0.001, 1e3):
+            torch.manual_seed(ck.seed + 61)
+            y = Fn2.gumbel_sigmoid(torch.full((200000,), -1.0), tau=tau, hard=True, threshold=thr)
+            case = {"kind": "threshold-boundary", "threshold": thr, "tau": tau, "logit": -1.0}
+            ck.case(case, nontrivial=True, kind="threshold-boundary")
+            if not bool((y == want).all()):
+                ck.disagree("hard Gumbel-sigmoid sample with a threshold at / beyond the end of (0,1): the value depends on the temperature (rounded sigmoid compared)",
+                            case, expected=want, observed=float(y.mean()), signature={"what": "threshold-boundary"})
     # Walsh layers converted to 16 bits: a 16-bit uniform draw is exactly 0 once in a few hundred / thousand draws (logistic noise -inf)
     # and cannot resolve the tails.  A node with the constant form +30 is 1 with probability 1 - 1e-13, one with form -6 is 1 with
     # probability 0.00247, and every output is finite also at a temperature beyond the binary32 range
